@@ -348,6 +348,11 @@ def directed():
         for init in ("default", [2, 0, 1, 5, 0]):
             yield {"keys": [3, 7, 11, 20, 41], "kdtype": "int64", "mod": None, "mod2": 3, "init": init, "perm": [], "cuts": [1000, 100000, 100001],
                    "batches": [{"kind": "huge", "gen": {"n": n_, "mult": 3, "extra": [5, 99, -4] if n_ < 2 ** 20 else []}}]}
+    # one common start value (a plain python number) just below / above what 32 bits count: the totals are 64-bit numbers from the first hit on
+    for init_ in (2 ** 31 - 3, 2 ** 31 - 1, 2 ** 31 + 5, 2 ** 32 - 2, 2 ** 40, 2 ** 15 - 2, 2 ** 16 - 2):
+        for kd_ in ("int64", "int32", None):
+            yield {"keys": [3, 7, 11, 20, 41], "kdtype": kd_, "mod": None, "mod2": 3, "init": init_, "perm": [], "cuts": [2],
+                   "batches": [{"kind": "heavy", "samples": [7] * 6 + [3]}, {"kind": "mixed", "samples": [7, 99, 7, 41, 41]}]}
     # a narrow key dtype, values already materialised, then one key more often than that dtype can count
     for kd_, reps in (("int8", 128), ("uint8", 256), ("int8", 300), ("int16", 200)):
         for init in ("default", [1, 2, 3]):
